@@ -546,6 +546,31 @@ fn find_in_block(b: &syn::Block, path: &[String]) -> Option<Found> {
     find_in_items(&items, path)
 }
 
+/// `A@Tr<x::Y>::f` -> ["A@Tr<x::Y>", "f"]: split on `::` outside angle brackets
+fn split_path(p: &str) -> Vec<String> {
+    let mut out = vec![];
+    let mut cur = String::new();
+    let mut depth = 0i32;
+    let b: Vec<char> = p.chars().collect();
+    let mut i = 0;
+    while i < b.len() {
+        match b[i] {
+            '<' => depth += 1,
+            '>' => depth -= 1,
+            ':' if depth == 0 && i + 1 < b.len() && b[i + 1] == ':' => {
+                out.push(std::mem::take(&mut cur));
+                i += 2;
+                continue;
+            }
+            _ => {}
+        }
+        cur.push(b[i]);
+        i += 1;
+    }
+    out.push(cur);
+    out
+}
+
 // ------------------------------------------------------------------ call graph dump
 
 struct CallCollector {
@@ -722,7 +747,7 @@ fn main() {
         by_module.entry(f[0].to_string()).or_default().push((
             f[1].to_string(),
             f[2].to_string(),
-            f[3].split("::").map(|s| s.to_string()).collect(),
+            split_path(f[3]),
             f.get(4).map(|s| s.split(',').map(|x| x.to_string()).collect()).unwrap_or_default(),
         ));
     }
